@@ -1,7 +1,10 @@
 //! C15 (reuse of a graph value after any history of runs) and C20 (simultaneous runs on one
 //! graph), both on top of the director.
 
+use std::panic::{catch_unwind, AssertUnwindSafe};
 use std::time::Instant;
+
+use futures::Stream;
 
 use fn_graph::FnGraph;
 
@@ -176,6 +179,41 @@ pub fn c15_case(gs: &GraphSpec, history: &[HistRun], probe: &RunSpec, probe_tape
     st.count(&format!("api.{}", probe.api.name()));
     if gs.n >= 2 && tr1.log.iter().filter(|e| matches!(e, Ev::Start(_) | Ev::Yield(_))).count() >= 2 && !history.is_empty() {
         st.distinct_insert(hash_of(&(gs, history.iter().map(hist_encode).collect::<Vec<_>>(), probe.encode(), tr1.behaviour_hash())));
+    }
+    // a clone must behave like a freshly built graph as well - also one taken after the history,
+    // and also while a run on the original is still in progress (a stream polled once, its first
+    // FnRef held): the probe runs on the clone with the same tape
+    if hash_of(&(gs, probe.encode())) % 3 == 0 {
+        let waker = std::task::Waker::noop();
+        let mut cx = std::task::Context::from_waker(waker);
+        let mut in_progress = Box::pin(used.g.stream());
+        let first = match catch_unwind(AssertUnwindSafe(|| in_progress.as_mut().poll_next(&mut cx))) {
+            Ok(std::task::Poll::Ready(Some(r))) => Some(r),
+            _ => None,
+        };
+        let mut cl = used.g.clone();
+        let mut t4 = Tape::forced(probe_tape.to_vec());
+        let tr4 = run_case_abort(&mut cl, probe, &mut t4, None);
+        st.count("clone_probes_while_original_in_progress");
+        drop(first);
+        drop(in_progress);
+        if !same(&tr1, &tr4) {
+            let detail = format!(
+                "run on a CLONE (taken after the history, while a stream on the original was in progress with one FnRef held) differs from the same run on a fresh graph. fresh: [{}] {:?} {:?} | clone: [{}] {:?} {:?}",
+                log_str(&tr1.log, 80),
+                tr1.term,
+                tr1.result,
+                log_str(&tr4.log, 80),
+                tr4.term,
+                tr4.result
+            );
+            let mut case = format!("g={}", gs.encode());
+            for h in history {
+                case.push_str(&format!("|h={}", hist_encode(h)));
+            }
+            case.push_str(&format!("|r={}|t={}", probe.encode(), probe_tape.iter().map(|c| c.to_string()).collect::<Vec<_>>().join(".")));
+            return Ok(Some((Violation { prop: "C15", kind: "clone-behaves-differently", detail }, case)));
+        }
     }
     if !same(&tr1, &tr3) {
         let detail = format!(
